@@ -220,6 +220,7 @@ type Subscription struct {
 	ch         chan *Msg
 	done       chan struct{}
 	delivered  uint64
+	busyBytes  int // size of the message the callback is handling (it counts as pending until the callback returns)
 	limMsgs    int // pending limits as in nats.go (0: the library defaults, 524288 messages / 64 MiB)
 	limBytes   int
 }
@@ -941,6 +942,7 @@ func (w *World) Exec(e Event) {
 			return
 		}
 		s.busy = true
+		s.busyBytes = len(m.Data)
 		w.mu.Unlock()
 		if w.Inline {
 			s.cb(m)
@@ -1018,11 +1020,15 @@ func (w *World) routeLocked(c *Conn) {
 			if lb == 0 {
 				lb = 64 * 1024 * 1024
 			}
-			pb := len(m.Data)
+			pb, pn := len(m.Data), len(s.inbox)+1
 			for _, q := range s.inbox {
 				pb += len(q.Data)
 			}
-			if (lm > 0 && len(s.inbox)+1 > lm) || (lb > 0 && pb > lb) {
+			if s.busy { // nats.go accounts for a delivered message when its callback has returned
+				pn++
+				pb += s.busyBytes
+			}
+			if (lm > 0 && pn > lm) || (lb > 0 && pb > lb) {
 				w.Stats.SlowConsumerDrops++
 				continue
 			}
